@@ -284,3 +284,8 @@ Proof.
     + intros pd pd' Hin. unfold proc_sequents, proc_ctx. cbn [p_types p_procs p_assumed]. fold D. rewrite ESg'.
       eapply Forall_impl; [|exact (HP _ _ Hin false (WP _ _ Hin))]. intros s (_ & _ & C). auto.
 Qed.
+
+Corollary tc_indep_program p p' : env_moded_b (p_types p) = true -> typecheck p = Accept p' -> IndepProgram p p'.
+Proof. intros Hm H. exact (proj1 (tc_independent p p' Hm H)). Qed.
+Corollary tc_drop_split_program p p' : env_moded_b (p_types p) = true -> typecheck p = Accept p' -> DropSplitProgram p p'.
+Proof. intros Hm H. exact (proj2 (tc_independent p p' Hm H)). Qed.
